@@ -13,6 +13,7 @@ import (
 	"testing"
 	"time"
 
+	"gosrc.io/xmpp/stanza"
 	"verif/hx"
 	"verif/vnet"
 	"verif/vrt"
@@ -488,6 +489,138 @@ func c18client(intervalS int64, mode0 string, k int, delta time.Duration) func()
 	}
 }
 
+// c18sessions: one Client goes through several sessions, each ended in its own way, the next one started at once
+// (as a StreamManager does). Per session: one keepalive per interval counted from its start, whatever the application
+// sends meanwhile, and nothing after its end - on its own connection (which the server may have left open) or, through
+// the shared transport, on the next one. What a session leaves behind for the next (a stop guard, a channel, a
+// timestamp) shows in the second or third.
+//   eof               the server's end goes away
+//   stream-close-open the server ends the stream and leaves the socket open
+//   disconnect        the application calls Disconnect
+//   writes-die        (last session only) every write fails from some point on, reads stay silent: the next keepalive
+//                     must fail, close the connection and so get the loss reported
+func c18sessions(intervalS int64, ends []string, delta time.Duration, traffic bool) func() {
+	return func() {
+		vrt.Quiet(true)
+		interval := secs(intervalS)
+		s := newSess(sessOpts{keepalive: intervalS, served: func(sc *srvConn, r *negRec) { sc.idleSession(r) }})
+		if s.cl == nil {
+			return
+		}
+		cfg := fmt.Sprintf("interval=%s sessions=%v delta=%s traffic=%v", interval, ends, delta, traffic)
+		type sess struct {
+			conn       *srvConn
+			start, end time.Duration
+			kind       string
+		}
+		var all []sess
+		up := false
+		if traffic {
+			vrt.Go("app-traffic", func() {
+				for i := 0; i < 40*len(ends); i++ {
+					if up {
+						_ = s.cl.Send(stanza.Message{Attrs: stanza.Attrs{To: "peer@example.org", Id: fmt.Sprintf("t%d", i)}, Body: "traffic"})
+					}
+					vrt.Sleep(interval / 3)
+				}
+			})
+		}
+		for i, kind := range ends {
+			var err error
+			if i > 0 && ends[i-1] == "eof" {
+				err = s.cl.Resume()
+			} else {
+				err = s.cl.Connect()
+			}
+			if err != nil {
+				vrt.Fail("C18|harness|connect", "%s: session %d: %v", cfg, i+1, err)
+				return
+			}
+			vrt.WaitIdle()
+			conn := s.conn(len(s.conns) - 1)
+			cur := sess{conn: conn, start: vrt.VNow(), kind: kind}
+			up = true
+			vrt.Quiet(false)
+			vrt.Sleep(2*interval + delta)
+			nDisc0, nErr0 := 0, len(s.errs)
+			for _, ev := range s.events {
+				if ev.State.state == StateDisconnected {
+					nDisc0++
+				}
+			}
+			switch kind {
+			case "eof":
+				conn.close()
+			case "stream-close-open":
+				conn.send("</stream:stream>")
+			case "disconnect":
+				up = false
+				_ = s.cl.Disconnect()
+			case "writes-die":
+				conn.raw.Peer().WriteFault = func(c *vnet.Conn, p []byte) (int, error) { return 0, errors.New("write: broken pipe") }
+				vrt.Sleep(interval + 40*time.Second) // the next tick, then at most two close time-outs
+			}
+			vrt.WaitIdle()
+			up = false
+			vrt.Quiet(true)
+			cur.end = vrt.VNow()
+			all = append(all, cur)
+			if kind == "writes-die" {
+				nDisc := 0
+				for _, ev := range s.events {
+					if ev.State.state == StateDisconnected {
+						nDisc++
+					}
+				}
+				if !conn.raw.PeerClosed() {
+					vrt.Fail("C18|dead-connection-not-closed|sessions", "%s: session %d: nothing can be written any more, and %s later the connection is still not closed", cfg, i+1, interval+40*time.Second)
+				} else if nDisc-nDisc0 != 1 || len(s.errs)-nErr0 < 1 {
+					vrt.Fail("C18|loss-not-reported-once|sessions", "%s: session %d: after the connection went dead: %d error callbacks, %d Disconnected events", cfg, i+1, len(s.errs)-nErr0, nDisc-nDisc0)
+				}
+			}
+		}
+		// the last session is over: let any loop left behind show itself
+		vrt.Sleep(3*interval + time.Second)
+		vrt.WaitIdle()
+		for i, se := range all {
+			var pings []time.Duration
+			for _, rec := range *se.conn.raw.Peer().Log {
+				if rec.ToSrv && string(rec.Data) == "\n" {
+					if rec.Failed && se.kind == "writes-die" {
+						continue // the attempt that reveals the loss
+					}
+					pings = append(pings, rec.At-se.start)
+				}
+			}
+			up := se.end - se.start
+			if se.kind == "writes-die" {
+				up = 2*interval + delta
+			}
+			n := 0
+			for _, p := range pings {
+				switch {
+				case p > up && se.kind != "writes-die":
+					vrt.Fail("C18|ping-after-session-end|sessions|end="+se.kind, "%s: session %d ended %s after its start; a keepalive was written on its connection at %s (all %v)", cfg, i+1, up, p, pings)
+				case p%interval != 0 || p == 0:
+					vrt.Fail("C18|ping-off-schedule|sessions", "%s: session %d: keepalive written %s after its start (all %v): not a multiple of the interval - a loop of an earlier session is still running, or the ticks moved", cfg, i+1, p, pings)
+				default:
+					n++
+				}
+			}
+			want := int(up / interval)
+			if up%interval == 0 && se.kind != "writes-die" {
+				want-- // ended on the tick: that keepalive may or may not have gone out
+				if n == want+1 {
+					n = want
+				}
+			}
+			if n != want && se.kind != "writes-die" || se.kind == "writes-die" && n < want {
+				vrt.Fail("C18|ping-count|sessions", "%s: session %d was up for %s: %d keepalives on schedule (%v), want %d", cfg, i+1, up, n, pings, want)
+			}
+		}
+	}
+}
+
 func c18verdict(e *vrt.Exec) {
 	if e.Panic != nil {
 		vrt.Fail("C18|panic", "panic in T%d (%s): %s <- %s", e.Panic.Thread, e.Panic.Site, e.Panic.Value, trimStack(e.Panic.Stack))
@@ -548,6 +681,22 @@ func TestVerifC18(t *testing.T) {
 		scs = append(scs, hx.Scenario{Name: fmt.Sprintf("client/interval=%ds/hook-fails-reconnect", ivs), Opt: vrt.Options{Bound: 1, Horizon: 100000}, Body: c18client(ivs, "hook-fails-reconnect", 2, 0), Verdict: c18verdict})
 		scs = append(scs, hx.Scenario{Name: fmt.Sprintf("client/interval=%ds/idle", ivs), Opt: vrt.Options{Bound: 1, Horizon: 100000}, Body: c18client(ivs, "idle", 2, 0), Verdict: c18verdict})
 	}
+	// several sessions of one client
+	kinds := []string{"eof", "stream-close-open", "disconnect"}
+	for _, a := range kinds {
+		for _, b := range kinds {
+			for _, c := range kinds {
+				for _, d := range []time.Duration{0, 7 * time.Second} {
+					ends := []string{a, b, c}
+					scs = append(scs, hx.Scenario{Name: fmt.Sprintf("sessions/%s,%s,%s/delta=%s", a, b, c, d), Opt: vrt.Options{Bound: 1, Horizon: 200000}, Body: c18sessions(30, ends, d, false), Verdict: c18verdict})
+				}
+			}
+			scs = append(scs, hx.Scenario{Name: fmt.Sprintf("sessions/%s,%s/traffic", a, b), Opt: vrt.Options{Bound: 1, Horizon: 200000}, Body: c18sessions(30, []string{a, b}, 7 * time.Second, true), Verdict: c18verdict})
+			scs = append(scs, hx.Scenario{Name: fmt.Sprintf("sessions/%s,%s,writes-die/traffic", a, b), Opt: vrt.Options{Bound: 1, Horizon: 200000}, Body: c18sessions(30, []string{a, b, "writes-die"}, 7 * time.Second, true), Verdict: c18verdict})
+		}
+		scs = append(scs, hx.Scenario{Name: fmt.Sprintf("sessions/%s,writes-die", a), Opt: vrt.Options{Bound: 1, Horizon: 200000}, Body: c18sessions(30, []string{a, "writes-die"}, 7 * time.Second, false), Verdict: c18verdict})
+	}
+	scs = append(scs, hx.Scenario{Name: "sessions/writes-die/traffic", Opt: vrt.Options{Bound: 1, Horizon: 200000}, Body: c18sessions(30, []string{"writes-die"}, 7 * time.Second, true), Verdict: c18verdict})
 	if hx.Main("C18", scs) == 2 {
 		t.Fatal("internal error")
 	}
